@@ -1224,3 +1224,22 @@ VP("C05-R2C-mut-number-not-converted", "C05", "early-return bool validator retur
    "            return bool(value)", "            return value")
 VP("C05-R2C-mut-case-sensitive", "C05", "early-return bool validator compares tokens case-sensitively", "C05-R2C", BOOL,
    "            token = value.lower()", "            token = value")
+VP("C06-R2C-mut-no-parent", "C03", "aliased adoption: the handed-in configuration is stored without _parent", "C06-R2C", CORE,
+   "            sub_config._parent = self\n", "")
+VP("C06-R2C-mut-discard-first", "C06", "refactored _set_value: default mark cleared before validation", "C06-R2C", CORE,
+   "            try:\n                validated = field.validate(self, value)",
+   "            self._default_value_keys.discard(key)\n            try:\n                validated = field.validate(self, value)")
+VP("C06-R2C-mut-store-unvalidated", "C01", "refactored _set_value stores the raw value", "C06-R2C", CORE,
+   "                field.__setval__(self, validated)", "                field.__setval__(self, value)")
+VP("C06-R2C-mut-insert-raw", "C01", "refactored ListProxy.insert inserts the raw item", "C06-R2C", LIST,
+   "        super().insert(index, validated)", "        super().insert(index, item)")
+VP("C07-R2C-mut-empty-regenerates", "C07", "refactored loader regenerates (overwrites) the key file when it is empty", "C07-R2C", ENC,
+   "        if content is None:\n            self.__key = self.__generate_key()", "        if not content:\n            self.__key = self.__generate_key()")
+VP("C07-R2C-mut-any-error-regenerates", "C07", "refactored reader maps every error to 'missing'", "C07-R2C", ENC,
+   "        except OSError:\n            return None", "        except Exception:\n            return None")
+VP("C07-R2C-mut-strip", "C07", "refactored loader strips the key file content", "C07-R2C", ENC,
+   "        self.__key = content\n", "        self.__key = content.strip()\n")
+VP("C07-R2C-mut-exit-inverted", "C07", "`if not refcount` inverted", "C07-R2C", ENC,
+   "        if not self.__refcount:\n            self.__key = None", "        if self.__refcount:\n            self.__key = None")
+VP("C07-R2C-mut-size-mismatch", "C07", "named size constant used by the generator only", "C07-R2C", ENC,
+   "        if self.__key is None or len(self.__key) != KEY_SIZE:", "        if self.__key is None or len(self.__key) != 16:")
